@@ -5,10 +5,14 @@
 #include <stdint.h>
 
 #define SITE_MEM 110
+extern void* sim_last_addr;
+extern __thread int sim_in_stack_scan;
 static inline void acc(void* p) {
   uintptr_t a = (uintptr_t)p;
   /* simulated stacks live at 0x1F0000000000 .. 0x1FFFFFFFFFFF: thread-private, not a scheduling point */
   if ((a >> 40) == 0x1F) return;
+  if (sim_in_stack_scan) return;
+  sim_last_addr = p;
   sim_yield(SITE_MEM);
 }
 void __tsan_init(void) {}
